@@ -119,6 +119,18 @@ Theorem c15_streams : forall s e,
 Proof. exact deliver_calls. Qed.
 Print Assumptions c15_streams.
 
+(* Adapters keep their construction parameters: for every sequence of entries through one adapter instance and
+   every history of terminal failures (validation or I/O, at any positions), entry number i is handed to the
+   terminals exactly as a fresh adapter would hand it - global dimensions, deny list, globals and forced flag
+   are the same for every entry - and the Result is the first failing terminal's error. *)
+Theorem c15_adapter_state_constant : forall fs es k s, sfeed fs k s es = spec_feed deliver fs k s es.
+Proof. exact sfeed_spec. Qed.
+Print Assumptions c15_adapter_state_constant.
+Theorem c15_adapter_entry_i : forall fs es k s i e, nth_error es i = Some e ->
+  nth_error (sfeed fs k s es) i = Some (spec_result fs (k + i) s, deliver s e).
+Proof. exact sfeed_nth. Qed.
+Print Assumptions c15_adapter_entry_i.
+
 (* ---- non-vacuity ---- *)
 Definition ex_metric (ds : dims) (fl : flags) := VMetric [OUnsigned 7] 1 ds fl.
 Definition ex_entry : wentry :=
@@ -154,4 +166,12 @@ Example c15_example_stream :
       (deliver (SMergeGlobals (STee (SMergeGDims (STerm 0) [] []) (STerm 1)) ex_globals) (Plain [SConfig 1] [([111], [112])]))
   = [(0, [IValue [97; 122] (VString [49]); IConfig 1], [([103], [104]); ([111], [112])]);
      (1, [IValue [97; 122] (VString [49]); IConfig 1], [([103], [104]); ([111], [112])])].
+Proof. vm_compute. reflexivity. Qed.
+
+(* a deny-listed metric stays without the global dimension after an earlier entry failed in the terminal *)
+Example c15_example_sequence :
+  let m := Plain [SValue [109] (PlainV (ex_metric [] None))] [] in
+  map (fun p => (fst p, map (fun q : N * wentry => calls (snd q)) (snd p)))
+      (sfeed [(0, 0%nat, 1)] 0 (SMergeGDims (STerm 0) [([103], [100])] [[109]]) [m; m])
+  = [(Some (0, 1), [[IValue [109] (ex_metric [] None)]]); (None, [[IValue [109] (ex_metric [] None)]])].
 Proof. vm_compute. reflexivity. Qed.
